@@ -19,7 +19,8 @@ META = {
                  'byte position of its region and executed on the real codec; plus a behavioural model of the pipeline '
                  '(publish in batches -> seal -> append -> raw log -> subscribe, pause/resume, restart, change of the '
                  'master key variable, tampering on disk) whose TLC-simulated and scenario behaviours are executed on a '
-                 'running one-node server with an encrypted and a plain stream; every recorded outcome is judged by TLC '
+                 'running server (one node, and two nodes with both streams replicated: follower-served subscribers, leader '
+                 'change) with an encrypted and a plain stream; every recorded outcome is judged by TLC '
                  '(trace validation)',
     'level_text': 'TLC enumerates the complete abstract product on the transcription and proves: Read never crashes, '
                   'returns the value only for an untouched form read with the sealing master key, and an error for every '
@@ -50,24 +51,29 @@ META = {
                   'empty value is only round-tripped.  Replacing a whole stored value by another genuine stored value of '
                   'the same stream is not detectable by this design (no binding to the offset) and not claimed.  '
                   'Tampering on disk is done with the CRC-32C of the surrounding log message rewritten (the commit log '
-                  'itself refuses a CRC mismatch by stopping the server, which is outside this property).  Replication '
-                  'to followers is not exercised (one node); an invalid master key at resume / restart makes the server '
+                  'itself refuses a CRC mismatch by stopping the server, which is outside this property).  Replication: '
+                  'a second server holding a replica of both streams is part of the model and of the live runs (subscribers '
+                  'served by the in-sync follower, leader change by a follower report, raw logs of both replicas), three or '
+                  'more replicas, a stopped leader and restarts of a two-server cluster are not; an invalid master key at resume / restart makes the server '
                   'refuse to load the partition (FSM panic) and is outside the statement.',
     'design_ref': 'DESIGN.md section 6/C17, design_notes/C17.md',
 }
 
 TIERS = {
     'quick': dict(mc='MC_Encryption.cfg', trace='Trace_Encryption.cfg', sim='Sim_Encryption.cfg',
-                  fills=['rand', 'runs'], mk=[16, 32], sims=34, depth=10),
+                  fills=['rand', 'runs'], mk=[16, 32], sims=26, depth=10, csim='Sim_Encryption_cluster.cfg', csims=10,
+                  mcc='MC_Encryption_cluster.cfg'),
     'thorough': dict(mc='MC_Encryption_thorough.cfg', trace='Trace_Encryption_thorough.cfg', sim='Sim_Encryption.cfg',
-                     fills=['rand', 'runs', 'text', 'zero', 'ff'], mk=[16, 32], sims=160, depth=12),
+                     fills=['rand', 'runs', 'text', 'zero', 'ff'], mk=[16, 32], sims=140, depth=12,
+                     csim='Sim_Encryption_cluster.cfg', csims=60, mcc='MC_Encryption_cluster_thorough.cfg'),
 }
 
 SERVER_CFGS = [
-    {'batchMax': 3, 'batchWaitMs': 60, 'encby': 'request'},
-    {'batchMax': 3, 'batchWaitMs': 60, 'encby': 'serverconfig'},
-    {'batchMax': 1024, 'batchWaitMs': 0, 'encby': 'request'},
+    {'batchMax': 3, 'batchWaitMs': 60, 'encby': 'request', 'replicas': 1},
+    {'batchMax': 3, 'batchWaitMs': 60, 'encby': 'serverconfig', 'replicas': 1},
+    {'batchMax': 1024, 'batchWaitMs': 0, 'encby': 'request', 'replicas': 1},
 ]
+CLUSTER_CFG = {'batchMax': 3, 'batchWaitMs': 60, 'encby': 'request', 'replicas': 2}   # two servers, both streams replicated on both
 
 
 def cfg_set(cfgfile, name):
@@ -84,8 +90,9 @@ def pub(s, vals, how='b2b', fails=()):
     return {'a': 'Publish', 's': s, 'vals': vals, 'fails': list(fails), 'how': how}
 
 
-def sub(s, frm=0, rev=False):
-    return {'a': 'Subscribe', 's': s, 'from': frm, 'rev': rev}
+def sub(s, frm=0, rev=False, at='a'):
+    """at: replica id, or 'L' / 'F' = the replica that leads / follows the partition when the step is executed"""
+    return {'a': 'Subscribe', 's': s, 'from': frm, 'rev': rev, 'at': at}
 
 
 def scenarios(seed):
@@ -131,7 +138,7 @@ def scenarios(seed):
     # 6. tampering of every region
     steps = [pub('enc', [V(1, 'long'), V(2, 'short'), V(3, 'long')], 'b2b'), pub('enc', [V(4, 'empty'), V(5, 'long')], 'b2b')]
     for j, reg in enumerate(['KS', 'WK', 'NONCE', 'CT', 'TAG']):
-        steps += [{'a': 'Tamper', 'j': 5 - j, 'reg': reg}, sub('enc', 4 - j), sub('enc')]
+        steps += [{'a': 'Tamper', 'r': 'a', 'j': 5 - j, 'reg': reg}, sub('enc', 4 - j), sub('enc')]
     S.append(({'wrap': False}, steps))
     # 7. an invalid master key in the environment: living partitions go on, no new encrypted stream
     S.append(({'wrap': False}, [
@@ -144,10 +151,27 @@ def scenarios(seed):
     out.append({'id': 9100, 'cfg': dict(SERVER_CFGS[1], seed=seed, wrap=True), 'steps': S[0][1][:5] + [sub('enc'), sub('plain')]})
     out.append({'id': 9101, 'cfg': dict(SERVER_CFGS[1], seed=seed, wrap=False), 'steps': S[2][1]})
     out.append({'id': 9200, 'cfg': dict(SERVER_CFGS[2], seed=seed, wrap=True), 'steps': S[0][1]})
+    # 9. two replicas: replication carries the stored form; subscribers served by the follower; the leadership
+    # moves to the other replica, which seals from then on; tampering of one replica's log; new handlers on resume
+    LC = {'a': 'LeaderChange', 's': 'enc'}
+    out.append({'id': 9300, 'cfg': dict(CLUSTER_CFG, seed=seed, wrap=True), 'steps': [
+        pub('enc', [V(1, 'long'), V(2, 'short'), V(3, 'empty')], 'b2b'), pub('plain', [V(4, 'long')], 'api'),
+        sub('enc', at='L'), sub('enc', at='F'), sub('enc', 2, True, 'F'), sub('plain', at='F'),
+        LC, pub('enc', [V(5, 'long'), V(6, 'long')], 'gap'), pub('enc', [V(7, 'long')], 'api', [1]),
+        sub('enc', at='L'), sub('enc', at='F'), sub('enc', 4, True, 'L'),
+        LC, pub('enc', [V(8, 'short'), V(9, 'long'), V(10, 'long')], 'b2b', [2]), sub('enc', at='F'), sub('enc', at='L'),
+        {'a': 'Tamper', 'r': 'F', 'j': 2, 'reg': 'CT'}, sub('enc', at='F'), sub('enc', at='L')]})
+    out.append({'id': 9301, 'cfg': dict(CLUSTER_CFG, seed=seed, wrap=False), 'steps': [
+        pub('enc', [V(1, 'long'), V(2, 'long')], 'b2b'), {'a': 'LeaderChange', 's': 'plain'}, pub('plain', [V(3, 'long'), V(4, 'empty')], 'gap'),
+        sub('plain', at='F'), sub('plain', at='L'),
+        {'a': 'SetEnv', 'k': 'k2'}, LC, pub('enc', [V(5, 'long')], 'api'), sub('enc', at='F'),
+        {'a': 'Pause', 's': 'enc'}, {'a': 'Resume', 's': 'enc'}, sub('enc', at='F'), sub('enc', at='L'),
+        pub('enc', [V(6, 'long'), V(7, 'short')], 'b2b'), sub('enc', 3, at='F'), sub('enc', 3, at='L'), LC,
+        pub('enc', [V(8, 'long')], 'api'), sub('enc', 3, at='L'), sub('enc', 5, True, 'F')]})
     return out
 
 
-def decorate(sims, seed, rng):
+def decorate(sims, seed, rng, cluster=False, first_id=1):
     """TLC-simulated step sequences -> stimuli; value class, scheduling and tampered region are re-drawn here
     (the model's outcome does not depend on them)"""
     out = []
@@ -172,11 +196,17 @@ def decorate(sims, seed, rng):
                 wrap = wrap or bool(a['fails'])
             if a['a'] == 'Tamper':
                 a['reg'] = rng.choice(['KS', 'WK', 'NONCE', 'CT', 'TAG'])
+            if cluster and a['a'] in ('Subscribe', 'Tamper'):
+                # which server leads is decided by the cluster: the model's replica is kept as a ROLE
+                # (the replica that leads / follows the partition at that point of the behaviour)
+                lead = core.tlaval.state_var(st['body'], 'lead')
+                key, stream = ('at', a['s']) if a['a'] == 'Subscribe' else ('r', 'enc')
+                a[key] = 'L' if a[key] == lead[stream] else 'F'
             steps.append(a)
         if steps:
-            c = SERVER_CFGS[0] if rng.random() < 0.75 else rng.choice(SERVER_CFGS[1:])
-            out.append({'id': n + 1, 'cfg': dict(c, seed=seed, wrap=wrap or rng.random() < 0.5), 'steps': steps})
-    out.sort(key=lambda b: (b['cfg']['batchMax'], b['cfg']['encby']))   # one server per configuration
+            c = CLUSTER_CFG if cluster else (SERVER_CFGS[0] if rng.random() < 0.75 else rng.choice(SERVER_CFGS[1:]))
+            out.append({'id': first_id + n, 'cfg': dict(c, seed=seed, wrap=wrap or rng.random() < 0.5), 'steps': steps})
+    out.sort(key=lambda b: (b['cfg']['replicas'], b['cfg']['batchMax'], b['cfg']['encby']))   # one cluster per configuration
     return out
 
 
@@ -344,11 +374,12 @@ def run(rep, tier, seed, replay):
 
     # 1. design check: the abstract product on the transcription + the pipeline model
     # (-coverage 1 was run by hand on MC_Encryption.cfg: no zero counts, see design_notes/C17.md)
-    res = core.tlc_check('MC_Encryption.tla', T['mc'], timeout=2400)
-    rep.add_design(T['mc'], res)
-    if res['violated']:
-        raise core.Inconclusive('the transcription itself violates %s - specification and code disagree, see '
-                                'design_notes/C17.md' % res['violated'])
+    for mc in (T['mc'], T['mcc']):      # one server (with the codec table); two replicas
+        res = core.tlc_check('MC_Encryption.tla', mc, timeout=2400)
+        rep.add_design(mc, res)
+        if res['violated']:
+            raise core.Inconclusive('the transcription itself violates %s - specification and code disagree, see '
+                                    'design_notes/C17.md' % res['violated'])
     if (masks, ksv) != (cfg_set(T['mc'], 'Masks'), cfg_set(T['mc'], 'KSValues')):
         raise core.Inconclusive('design-check and trace configurations enumerate different products')
     lens = cfg_set(T['mc'], 'Lens')
@@ -360,8 +391,9 @@ def run(rep, tier, seed, replay):
         ncases, nstrings, distinct, sample, nvalues = run_codec(rep, d, gocfg, T['trace'], stats)
         # 3. behaviours on a live server
         sims = core.tlc_simulate('MC_Encryption.tla', T['sim'], T['sims'], T['depth'], seed)
-        behaviours = scenarios(seed) + decorate(sims, seed, rng)
-        behaviours.sort(key=lambda b: (b['cfg']['batchMax'], b['cfg']['encby']))
+        csims = core.tlc_simulate('MC_Encryption.tla', T['csim'], T['csims'], T['depth'], seed)
+        behaviours = scenarios(seed) + decorate(sims, seed, rng) + decorate(csims, seed, rng, cluster=True, first_id=5001)
+        behaviours.sort(key=lambda b: (b['cfg']['replicas'], b['cfg']['batchMax'], b['cfg']['encby']))
         lines = run_server(rep, d, behaviours, T['trace'], stats)
     sites = stats.get('seal_sites', {})
     if not stats.get('server_crashes') and not all(sites.get(x) for x in 'ABC'):
